@@ -85,20 +85,65 @@ Definition bcase (gs : list (order * list (list Z))) (tbl : list (Z * list (list
 # instances
 
 
-def make_instance(rng, vt, k, small=False):
+MIXED = {2: [(1, 1), (2, 1), (1, 2)], 3: [(1, 1, 0), (0, 1, 1), (2, 1, 0), (1, 1, 1)]}
+
+
+def make_instance(rng, vt, k, small=False, analytic=False):
+    """k even: first-order terms only (the list format applies).  k odd, symbolic values: at least two
+    parameters and MIXED monomials x*y, x**2*y, x*y*z (the Taylor chain of the sympy-expression
+    format divides by the order of ONE symbol per step: only mixed monomials can tell).
+    analytic (oracle only): an additional term f(x_0) * x_1 * C with f = exp or cos; the other
+    presentations receive its Taylor expansion up to total order 4."""
     herm = rng.random() < 0.75
-    c = gen.random_case(rng, hermitian=herm, fmt=vt, max_blocks=3, max_size=2 if small else 3, max_params=2, N=3,
-                        allow_fully=True, allow_mask=True)
+    mixed = vt == "sympy" and (k % 2 == 1 or analytic)
+    for _ in range(200):
+        c = gen.random_case(rng, hermitian=herm, fmt=vt, max_blocks=3, max_size=2 if small else 3,
+                            max_params=3 if mixed else 2, N=3, allow_fully=True, allow_mask=True)
+        if not mixed or c["nparam"] >= 2:
+            break
     c = copy.deepcopy(c)
-    if k % 2 == 0:  # first-order terms only, so that the list format applies
+    dim = len(c["sub"])
+    if k % 2 == 0 and not analytic:  # first-order terms only, so that the list format applies
         c["H"] = {key: M for key, M in c["H"].items() if sum(gen.unkey(key)) <= 1}
+    if mixed:
+        pool = MIXED[c["nparam"]]
+        for o in rng.sample(pool, rng.randint(2, len(pool))):
+            M = gen.rand_matrix(rng, dim, herm=herm, cplx=rng.random() < 0.5, dyadic=False, density=1.0)
+            if gq.is_zero(M):
+                M[0][0] = G(1)
+            c["H"][gen.key(o)] = gq.enc(M)
     # every parameter must occur (the sympy-expression format rejects unused symbols)
     for key, M in list(c["H"].items()):
         if sum(gen.unkey(key)) == 1 and gq.is_zero(gq.dec(M)):
             Md = gq.dec(M)
             Md[0][0] = G(1)
             c["H"][key] = gq.enc(Md)
+    if analytic:
+        f = rng.choice(["exp", "cos"])
+        C = gen.rand_matrix(rng, dim, herm=herm, cplx=False, dyadic=False, density=1.0)
+        if gq.is_zero(C):
+            C[0][0] = G(1)
+        c["analytic"] = dict(f=f, C=gq.enc(C))
+        c["H_poly"] = dict(c["H"])
+        # f(x_0) * x_1 * C = sum_k t_k x_0^k x_1 C
+        for kk in range(0, 4):
+            if f == "exp":
+                t = Fr(1, _fact(kk))
+            else:
+                t = Fr((-1) ** (kk // 2), _fact(kk)) if kk % 2 == 0 else Fr(0)
+            if t == 0:
+                continue
+            o = (kk, 1) + (0,) * (c["nparam"] - 2)
+            prev = gq.dec(c["H"][gen.key(o)]) if gen.key(o) in c["H"] else gq.zeros(dim)
+            c["H"][gen.key(o)] = gq.enc(gq.add(prev, gq.scal(t, C)))
     return c
+
+
+def _fact(n):
+    r = 1
+    for i in range(2, n + 1):
+        r *= i
+    return r
 
 
 def rotation(rng, inst):
@@ -138,6 +183,10 @@ def view(inst, desig, rng):
     nb = max(sub) + 1
     pos = [[k for k in range(dim) if sub[k] == b] for b in range(nb)]
     H = {gen.unkey(k): gq.dec(M) for k, M in inst["H"].items()}
+    view.extra = None
+    if "analytic" in inst:
+        view.extra = dict(f=inst["analytic"]["f"], C=gq.dec(inst["analytic"]["C"]),
+                          H_poly={gen.unkey(k): gq.dec(M) for k, M in inst["H_poly"].items()})
     if desig in ("indices", "eigid"):
         I = gq.eye(dim)
         R = [[[I[r][c] for c in pos[b]] for r in range(dim)] for b in range(nb)]
@@ -145,6 +194,9 @@ def view(inst, desig, rng):
     Q, D = rotation(rng, inst)
     Qd = gq.adj(Q)
     Hrot = {n: gq.mul(gq.mul(Q, M), Qd) for n, M in H.items()}
+    if view.extra is not None:
+        view.extra["C"] = gq.mul(gq.mul(Q, view.extra["C"]), Qd)
+        view.extra["H_poly"] = {n: gq.mul(gq.mul(Q, M), Qd) for n, M in view.extra["H_poly"].items()}
     R = [[[Q[r][c] * D[c] for c in pos[b]] for r in range(dim)] for b in range(nb)]
     L = [[[Q[r][c] * (D[c].conj().inv()) for c in pos[b]] for r in range(dim)] for b in range(nb)]
     pairs = any(d != G(1) for d in D)
@@ -217,11 +269,15 @@ def present(inst, fmt, desig, rng):
     elif fmt == "expr":
         syms = symbols_for(nparam)
         expr = sympy.zeros(dim)
-        for n, M in H.items():
+        extra = view.extra
+        for n, M in (H if extra is None else extra["H_poly"]).items():
             mono = sympy.Integer(1)
             for s, e in zip(syms, n):
                 mono = mono * s ** e
             expr = expr + mono * implrun.to_sympy(M)
+        if extra is not None:
+            f = sympy.exp if extra["f"] == "exp" else sympy.cos
+            expr = expr + f(syms[0]) * syms[1] * implrun.to_sympy(extra["C"])
         ham = sympy.Matrix(expr)
         kw["symbols"] = syms
         info["syms"] = syms
@@ -316,7 +372,8 @@ def observe_otbs(inst, fmt, desig, rng):
     sub = inst["sub"]
     nb = max(sub) + 1
     sizes = [sum(1 for s in sub if s == b) for b in range(nb)]
-    orders = gq.orders_upto(inst["nparam"], 2)
+    top = 3 if any(sum(gen.unkey(k)) >= 3 for k in inst["H"]) else 2
+    orders = gq.orders_upto(inst["nparam"], top)
     queries = []
     problems = []
     with warnings.catch_warnings():
@@ -346,6 +403,43 @@ def observe_otbs(inst, fmt, desig, rng):
     return info, queries, problems
 
 
+def scalar_expr_case(rng):
+    """a scalar sympy.Expr input (polynomial with mixed monomials): operator_to_BlockSeries returns a
+    single 1x1 block per order = coefficient * monomial.  Returns (term, meta, problems)."""
+    from pymablock.block_diagonalization import operator_to_BlockSeries
+    nparam = rng.choice([2, 3])
+    syms = symbols_for(nparam)
+    coeffs = {(0,) * nparam: Fr(rng.randint(1, 5), rng.randint(1, 3))}
+    for o in gq.orders_upto(nparam, 3):
+        if sum(o) == 1 or (sum(o) >= 2 and rng.random() < (0.7 if sum(1 for e in o if e) >= 2 else 0.3)):
+            coeffs[tuple(o)] = Fr(rng.choice([-3, -2, -1, 1, 2, 3, 4]), rng.randint(1, 4))
+    expr = sympy.Integer(0)
+    for o, cf in coeffs.items():
+        mono = sympy.Integer(1)
+        for s_, e in zip(syms, o):
+            mono = mono * s_ ** e
+        expr = expr + sympy.Rational(cf.numerator, cf.denominator) * mono
+    problems, queries = [], []
+    with warnings.catch_warnings():
+        warnings.simplefilter("ignore")
+        S = operator_to_BlockSeries(expr, symbols=syms, hermitian=True)
+        for n in gq.orders_upto(nparam, 3):
+            v = S[(0, 0) + tuple(n)]
+            if isinstance(v, sympy.Expr):
+                v = sympy.Matrix([[v]])
+            v, ok = strip_symbols(v, syms, n)
+            if not ok:
+                problems.append("scalar element %s is not coefficient * monomial" % (tuple(n),))
+            queries.append((tuple(n), 0, 0, implrun.from_value(v, (1, 1))))
+    ids = {o: k + 1 for k, o in enumerate(sorted(coeffs))}
+    tbl = "[%s]" % "; ".join("(%d%%Z, %s)" % (ids[o], cmat([[G(coeffs[o])]])) for o in sorted(coeffs))
+    qs = "[%s]" % "; ".join("(%s, (%d%%nat, %d%%nat), %s)" % (corder(n), i, j, cmat(E)) for n, i, j, E in queries)
+    c = "(@CExpr ZVals %d%%nat (fun e => %s0%%Z))" % (nparam, "".join("if order_eqb e %s then %d%%Z else " % (corder(o), ids[o]) for o in sorted(coeffs)))
+    term = "fcase %s (setup_of_indices FX [0%%nat]) true %s %s" % (c, tbl, qs)
+    meta = dict(inst=dict(scalar_expr=str(expr), nparam=nparam), fmt="scalar-expr", desig="none")
+    return term, meta, problems
+
+
 def tie_formats(ctx, ninst=None):
     n = ninst or ctx.n(18, 240)
     rng = ctx.rng
@@ -373,9 +467,17 @@ def tie_formats(ctx, ninst=None):
                 meta.append(dict(inst=inst, fmt=fmt, desig=desig))
                 if max(inst["sub"]) >= 1 and len(inst["H"]) >= 3:
                     nontriv.add(core.canon((inst, fmt, desig)))
+    for _ in range(max(3, n // 3)):
+        term, m, problems = scalar_expr_case(rng)
+        dist["scalar-expr/sympy/none"] = dist.get("scalar-expr/sympy/none", 0) + 1
+        for pb in problems:
+            disagreements.append(dict(what=pb, input=m, impl=None, model=None))
+        terms.append(term)
+        meta.append(m)
+        nontriv.add(core.canon(m))
     failing = core.coq_eval_cases("k_formats", HEADER, terms, shard=12, timeout=1500)
     for idx in failing:
-        disagreements.append(dict(what="operator_to_BlockSeries differs from the model (%s, %s, %s)" % (meta[idx]["fmt"], meta[idx]["inst"]["fmt"], meta[idx]["desig"]),
+        disagreements.append(dict(what="operator_to_BlockSeries differs from the model (%s, %s, %s)" % (meta[idx]["fmt"], meta[idx]["inst"].get("fmt", "sympy"), meta[idx]["desig"]),
                                   input=meta[idx], impl="elements encoded in the term", model="Coq term evaluates to false: " + terms[idx][:1500]))
     return dict(cases=len(terms), nontrivial=len(nontriv), rule="distinct presentations (format x value type x designation) of instances with >= 2 blocks and >= 3 terms, all elements of total order <= 2",
                 samples=meta[:3], distribution=dist, disagreements=disagreements)
@@ -461,9 +563,13 @@ def oracle_formats(ctx, ninst=None):
     vts = ["sympy", "dense", "sparse"]
     tasks = []
     for k in range(n):
-        inst = make_instance(rng, vts[k % 3], k // 3, small=(vts[k % 3] == "sympy"))  # dim <= 6 for sympy
-        # exact symbolic evaluation is slow: total order 3 there, 4 (thorough) for the float types
-        N = 3 if (ctx.quick or inst["fmt"] == "sympy") else 4
+        # every 5th instance: symbolic with a non-polynomial analytic factor exp(x)*y / cos(x)*y
+        if k % 5 == 4:
+            inst = make_instance(rng, "sympy", k, small=True, analytic=True)
+        else:
+            inst = make_instance(rng, vts[k % 3], k // 3, small=(vts[k % 3] == "sympy"))  # dim <= 6 for sympy
+        # exact symbolic evaluation is slow: total order 3 there (4 in thorough when dim <= 4), 4 (thorough) for the float types
+        N = 3 if (ctx.quick or (inst["fmt"] == "sympy" and len(inst["sub"]) > 4)) else 4
         tasks.append((inst, rng.getrandbits(32), N))
         if max(inst["sub"]) >= 1:
             nt.add(core.canon(inst))
